@@ -115,7 +115,7 @@ CHECKS = {
     "C02": (
         "model_checking",
         "bounded-exhaustive enumeration of LR(1) grammars x token strings; Pager-minimised automaton vs an independent canonical LR(1) construction and parser",
-        "For every grammar of the universes, the LR(1)-not-LALR(1) families (all subsets of the classic counter-example and two variants; every 3-6 production subset of {x,y} {A,B} {a,b,c} with three suffix tokens in both rule orders, so that weakly-compatible, incompatible and subset contexts all occur), family F-lalr3 (for each of the prefixes p, q, r r, s s s either nothing or 'prefix A u | prefix B v' with A: x y; B: x y and every ordered pair u != v of four suffix tokens, optionally 'prefix C' with C: x z: late merges, re-propagation to successors, stranded states), F-lalr4 (two-item kernels one level down with a third party feeding the same successor states: a re-processed state splits off two states in one pass), F-gc, F-pager (stored, see C01), F-wide, the seed grammars and their complete edit-distance-1 neighbourhood whose canonical LR(1) automaton is conflict-free: the real construction must report no conflicts and no more states than the canonical automaton, and for every input up to the bound the real parser and the canonical LR(1) parser must return the same tree or fail at the same lexeme.",
+        "For every grammar of the universes, the LR(1)-not-LALR(1) families (all subsets of the classic counter-example and two variants; every 3-6 production subset of {x,y} {A,B} {a,b,c} with three suffix tokens in both rule orders, so that weakly-compatible, incompatible and subset contexts all occur), family F-lalr3 (for each of the prefixes p, q, r r, s s s either nothing or 'prefix A u | prefix B v' with A: x y; B: x y and every ordered pair u != v of four suffix tokens, optionally 'prefix C' with C: x z: late merges, re-propagation to successors, stranded states), F-lalr4 (two-item kernels one level down with a third party feeding the same successor states: a re-processed state splits off two states in one pass), F-gc, F-pager (stored, see C01), F-wide (incl. the classic counter-example, its mirror image and their neighbours with the 64-bit word boundary at every position relative to their tokens), the seed grammars and their complete edit-distance-1 neighbourhood whose canonical LR(1) automaton is conflict-free: the real construction must report no conflicts and no more states than the canonical automaton, and for every input up to the bound the real parser and the canonical LR(1) parser must return the same tree or fail at the same lexeme.",
         "Late merges that need longer propagation chains than these grammars contain are outside the bound.",
         "DESIGN.md 3/C02",
     ),
@@ -129,7 +129,7 @@ CHECKS = {
     "C03": (
         "model_checking",
         "bounded-exhaustive enumeration of grammars x precedence configurations; every (state, token) cell re-derived from the item sets by an independent oracle",
-        "Every grammar of the listed universes (incl. U(2,1,2,3,7) / U(2,1,2,4,8)), of the operator-skeleton family, of F-wide (the skeletons with their precedence declarations at token indices 62-120) and of the two-token-production family (ternary / mixfix skeletons, where the last token of a production and the token carrying a precedence differ), under every precedence declaration of <= 2 lines and every single %prec placement, is built with the real table constructor; for every state and token the expected action is re-derived from the closed item sets, the edges and the generator's own precedence model, and the shift/reduce and reduce/reduce lists are compared as multisets with the cells settled by the two default rules; accept/reduce failures are compared with a canonical LR(1) construction.",
+        "Every grammar of the listed universes (incl. U(2,1,2,3,7) / U(2,1,2,4,8)), of the operator-skeleton family, of F-wide (the skeletons with their precedence declarations at token indices 62-120) and of the two-token-production family (ternary / mixfix skeletons, where the last token of a production and the token carrying a precedence differ), under every precedence declaration of <= 2 lines and every single %prec placement - and, whenever there is a precedence line, once more with %epp on every token and once with %epp on the first declared token -, is built with the real table constructor; for every state and token the expected action is re-derived from the closed item sets, the edges and the generator's own precedence model, and the shift/reduce and reduce/reduce lists are compared as multisets with the cells settled by the two default rules; accept/reduce failures are compared with a canonical LR(1) construction.",
         "Item sets and edges are taken as given here (C01/C02/C16 check them). At most 3 precedence levels / 3-way reduce-reduce inside the universes.",
         "DESIGN.md 3/C03",
     ),
